@@ -94,7 +94,7 @@ def case_spellings(rng, word, n):
 
 # ------------------------------------------------------------------------------------------------ C12
 C12_THEOREMS = ["C12_agrees_with_oracles_by_number", "C12_tables_cover_complete_sources", "C12_five_tables", "C12_tables_nodup", "C12_lookups_inverse", "C12_invert_deterministic",
-                "C12_agrees_with_oracles", "C12_oracles_overlap", "C12_audit_ids", "C12_alias_case_insensitive",
+                "C12_agrees_with_oracles", "C12_oracles_overlap", "C12_audit_ids", "C12_every_audit_constant_is_the_kernels", "C12_alias_case_insensitive",
                 "C12_alias_pairs", "C12_getinfo_shape", "C12_unsupported", "C12_supported_set"]
 
 
@@ -192,6 +192,25 @@ def check_C12(ctx, replay=None):
             p = ctx.violation("counterexample", dict(what="the audit identifier of arch.%s is not the kernel's AUDIT_ARCH constant" % k,
                                                      record=k, actual="0x%x" % r["id"], kernel="0x%x" % kernel_id[k]), True)
             rewrite_with_replay_cmd(ctx, p)
+    # direct search: EVERY audit-architecture constant of the package (regenerated audit_consts: the values the Go type
+    # checker gives the source now) against the kernel's constant of the same name (vendored OracleAudit.v)
+    with open(os.path.join(COQ, "oracle", "OracleAudit.v")) as f:
+        kaudit = {a: int(b) for a, b in re.findall(r'\("(AUDIT_ARCH_\w+)"%string, (\d+)\)', f.read())}
+    try:
+        gar = open(os.path.join(gen, "GenArches.v")).read()
+        blk = gar[gar.find("Definition audit_consts"):]
+        blk = blk[:blk.find("].")]
+        for gname, val in re.findall(r'\("(auditArch\w+)"(?:%string)?, (\d+)\)', blk):
+            evaluations += 1
+            kn = "AUDIT_ARCH_" + gname[len("auditArch"):]
+            if kaudit.get(kn) != int(val):
+                nbad += 1
+                p = ctx.violation("counterexample", dict(what="the constant arch.%s is not the kernel's %s" % (gname, kn), constant=gname, actual="0x%x" % int(val),
+                                                         kernel=("0x%x" % kaudit[kn]) if kn in kaudit else "no such kernel constant",
+                                                         observable="arch.AuditArch(%s).String()" % (("0x%x" % kaudit[kn]) if kn in kaudit else val)), True)
+                rewrite_with_replay_cmd(ctx, p)
+    except OSError:
+        pass
     # direct search: every number of a runtime table against the independent tables (vendored: kernel UAPI headers, x/sys,
     # Go's syscall package), by number as well as by name
     otxt = open(os.path.join(COQ, "oracle", "OracleTables.v")).read()
@@ -921,6 +940,12 @@ def check_C13(ctx, replay=None):
             # policies that differ only in one group's (unnamed) action: none may influence the other
             for j, sib in enumerate(pg.siblings(pol)):
                 lines.append("P d%ds%d %d %s %s" % (i, j, le, an, PolicyGen.tokens(sib)))
+    # a refused policy is an input like any other: compiling it must leave it as it was. Every class of defect a few times
+    # (the operation outside the eight constants more often - it has six spellings, wrong case among them), on policies with
+    # conditions, so that a validation that "repairs" what it reads in the caller's value is seen
+    for j, defect in enumerate(PolicyGen.DEFECTS * (2 if q else 8) + ["badop", "argidx_and_badop"] * (5 if q else 20)):
+        pol = pg.policy(archname=rng.choice(PolicyGen.TABLE_ARCHES + ["X32"]), kind=rng.choice(["cond", "mixed", "pair_cond"]), defect=defect)
+        lines.append("P x%d %d %s %s" % (j, rng.randint(0, 1), pol["arch"], PolicyGen.tokens(pol)))
     if replay and replay.get("case"):
         lines = [replay["case"]] if not replay.get("cases") else list(replay["cases"])
     inp = "\n".join(lines) + "\n"
